@@ -1,0 +1,133 @@
+//go:build verif
+
+package dht
+
+import (
+	"sort"
+	"time"
+
+	"github.com/anacrolix/dht/v2/int160"
+)
+
+// Read-only views and clock helpers used by the verification harness in /verif. Compiled only
+// with -tags verif.
+
+type VerifNode struct {
+	Bucket        int
+	Id            [20]byte
+	Addr          string
+	HasQuery      bool
+	QueryAge      time.Duration
+	HasResponse   bool
+	ResponseAge   time.Duration
+	FailedPing    bool
+	Good          bool
+	Bad           bool
+	Questionable  bool
+	Secure        bool
+	InAddrIndex   bool
+	IndexedBucket int
+}
+
+type VerifTable struct {
+	Root  [20]byte
+	K     int
+	Nodes []VerifNode
+	// addr string -> ids recorded in the per-address index
+	AddrIndex map[string][][20]byte
+}
+
+func (s *Server) VerifTableSnapshot() (ret VerifTable) {
+	s.mu.Lock()
+	defer s.mu.Unlock()
+	ret.Root = s.table.rootID.AsByteArray()
+	ret.K = s.table.k
+	now := time.Now()
+	for i := range s.table.buckets {
+		for n := range s.table.buckets[i].nodes {
+			vn := VerifNode{
+				Bucket:       i,
+				Id:           n.Id.AsByteArray(),
+				Addr:         n.Addr.String(),
+				FailedPing:   n.failedLastQuestionablePing,
+				Good:         s.IsGood(n),
+				Bad:          s.nodeIsBad(n),
+				Questionable: s.IsQuestionable(n),
+				Secure:       n.IsSecure(),
+			}
+			if !n.lastGotQuery.IsZero() {
+				vn.HasQuery = true
+				vn.QueryAge = now.Sub(n.lastGotQuery)
+			}
+			if !n.lastGotResponse.IsZero() {
+				vn.HasResponse = true
+				vn.ResponseAge = now.Sub(n.lastGotResponse)
+			}
+			if ids, ok := s.table.addrs[vn.Addr]; ok {
+				_, vn.InAddrIndex = ids[n.Id]
+			}
+			if n.Id != s.table.rootID {
+				vn.IndexedBucket = s.table.bucketIndex(n.Id)
+			} else {
+				vn.IndexedBucket = -1
+			}
+			ret.Nodes = append(ret.Nodes, vn)
+		}
+	}
+	sort.Slice(ret.Nodes, func(i, j int) bool {
+		a, b := ret.Nodes[i], ret.Nodes[j]
+		if a.Bucket != b.Bucket {
+			return a.Bucket < b.Bucket
+		}
+		if a.Id != b.Id {
+			return string(a.Id[:]) < string(b.Id[:])
+		}
+		return a.Addr < b.Addr
+	})
+	ret.AddrIndex = make(map[string][][20]byte, len(s.table.addrs))
+	for a, ids := range s.table.addrs {
+		var l [][20]byte
+		for id := range ids {
+			l = append(l, id.AsByteArray())
+		}
+		sort.Slice(l, func(i, j int) bool { return string(l[i][:]) < string(l[j][:]) })
+		ret.AddrIndex[a] = l
+	}
+	return
+}
+
+// Simulates the passage of d for every routing table entry by moving its timestamps into the past.
+func (s *Server) VerifAgeNodes(d time.Duration) {
+	s.mu.Lock()
+	defer s.mu.Unlock()
+	s.table.forNodes(func(n *node) bool {
+		if !n.lastGotQuery.IsZero() {
+			n.lastGotQuery = n.lastGotQuery.Add(-d)
+		}
+		if !n.lastGotResponse.IsZero() {
+			n.lastGotResponse = n.lastGotResponse.Add(-d)
+		}
+		return true
+	})
+}
+
+// Sets the time source of the token server (the field exists but is unexported).
+func (s *Server) VerifSetTokenClock(f func() time.Time) {
+	s.mu.Lock()
+	defer s.mu.Unlock()
+	s.tokenServer.timeNow = f
+}
+
+func (s *Server) VerifTokenParams() (interval time.Duration, maxIntervalDelta int) {
+	return s.tokenServer.interval, s.tokenServer.maxIntervalDelta
+}
+
+func VerifBucketIndex(root, id [20]byte) int {
+	t := table{rootID: int160.FromByteArray(root)}
+	return t.bucketIndex(int160.FromByteArray(id))
+}
+
+func VerifRandomIdInBucket(root [20]byte, bucketIndex int) [20]byte {
+	id := randomIdInBucket(int160.FromByteArray(root), bucketIndex)
+	return id.AsByteArray()
+}
